@@ -63,6 +63,11 @@ pub fn feed(p: &mut request::Parser, wire: &[u8], sched: &[u128], out: &mut Vec<
     let mut pos = 0usize;
     let mut si = 0usize;
     loop {
+        // a clone is the same parser: every other call goes to a clone of the parser as it stands, the original is dropped
+        if si % 2 == 1 {
+            let c = p.clone();
+            *p = c;
+        }
         let space = p.input_buffer().len();
         let avail = space.min(wire.len() - pos);
         let n = if si < sched.len() { (sched[si] as usize).min(avail) } else { avail };
